@@ -71,7 +71,10 @@ def user_punch(rng, n, no_simno=False, newline_variants=False):
     for i in range(nv):
         k = rng.random()
         if k < 0.25:
-            vals.append('"%s"' % rng.choice(["str", "a b", "", "x", "long string value here"]))
+            strs = ["str", "a b", "", "x", "long string value here"]
+            if newline_variants:       # extended variants (C05/C09 only): lengths at the 12 / 20 character format boundaries
+                strs = strs + ["twelve_chars", "thirteen_char", "exactly_16_chars", "twenty_characters_20", "twentyone_characters_"]
+            vals.append('"%s"' % rng.choice(strs))
         elif k < 0.5:
             vals.append(rng.choice(["MU", "-LA(\"H+\")", "TOT(\"Na\")", "TC", "STEP_NO" if no_simno else "SIM_NO", "STEP_NO", "CELL_NO"]))
         elif k < 0.7:
